@@ -87,14 +87,13 @@ Definition strip_op (o : op) : op :=
   | o => o
   end.
 
-(* the path operations the theorem is about (Mknod / Readnod are not exercised on
-   a host directory; the handle operations and the attribute operations do not
-   go through this lemma) *)
+(* the path operations the theorem is about (the handle operations and the
+   attribute operations do not go through this lemma) *)
 Definition tree_op (o : op) : bool :=
   match o with
   | Mkdir _ _ | MkdirAll _ _ | OpenFile _ _ _ | Create _ | WriteFile _ _ _ | ReadFile _
   | ReadDir _ | Stat _ | Lstat _ | Symlink _ _ | Link _ _ | Readlink _ | Remove _
-  | Chmod _ _ | Chown _ _ _ | Chtimes _ _ => true
+  | Chmod _ _ | Chown _ _ _ | Chtimes _ _ | Mknod _ _ _ | Readnod _ => true
   | _ => false
   end.
 
@@ -214,6 +213,15 @@ Proof.
   - (* Chtimes *)
     rewrite s_node_sh. destruct (s_node h p) as [i|e]; [|reflexivity]. cbn [seth heap fst snd strip_out].
     rewrite (sh_upd h i (set_mtime (Some t)) (set_mtime (Some t))) by reflexivity. reflexivity.
+  - (* Mknod *)
+    rewrite s_leaf_sh. destruct (s_leaf h p) as [[[d nm] c]|e]; [|reflexivity].
+    rewrite is_dir_sh. destruct (negb (is_dir h d)); [reflexivity|]. destruct c; [reflexivity|].
+    cbn [seth heap fst snd strip_out].
+    rewrite (proj1 (sh_create h d nm (mkNode KDev perm 0%Z 0%Z [] None [] dev [] []) eq_refl)). reflexivity.
+  - (* Readnod *)
+    rewrite s_leaf_sh. destruct (s_leaf h p) as [[[d nm] c]|e]; [|reflexivity]. destruct c as [c|]; [|reflexivity].
+    rewrite get_sh. cbn [strip set_data set_xattrs n_kind n_dev].
+    destruct (n_kind (get h c)); reflexivity.
 Qed.
 
 (* ---- the same at the level of steps ------------------------------------------------------------ *)
@@ -259,7 +267,7 @@ Proof. intros a b Ha Hb H. destruct a; try discriminate Ha; destruct b; try disc
 Definition keep_op (o : op) : bool :=
   match o with
   | Mkdir _ _ | MkdirAll _ _ | OpenFile _ _ _ | Create _ | WriteFile _ _ _ | ReadDir _ | Symlink _ _ | Link _ _ | Readlink _
-  | Remove _ | Chmod _ _ | Chown _ _ _ | Chtimes _ _ => true
+  | Remove _ | Chmod _ _ | Chown _ _ _ | Chtimes _ _ | Mknod _ _ _ | Readnod _ => true
   | _ => false
   end.
 Lemma keep_ops : forall s o, keep_op o = true -> keeps (snd (spec_step s o)) = true.
@@ -280,7 +288,7 @@ Qed.
 
 (* operations that only look *)
 Definition ro_op (o : op) : bool :=
-  match o with ReadDir _ | Stat _ | Lstat _ | Readlink _ | ReadFile _ | GetXattr _ _ | ListXattrs _ => true | _ => false end.
+  match o with ReadDir _ | Stat _ | Lstat _ | Readlink _ | ReadFile _ | GetXattr _ _ | ListXattrs _ | Readnod _ => true | _ => false end.
 Lemma ro_ops : forall s o, ro_op o = true -> fst (spec_step s o) = s.
 Proof.
   intros s o Ho. unfold spec_step.
